@@ -3,8 +3,8 @@
 (* whole-message parsers (kinds hdrline, hdrlineb, headers, headersb, msg).   *)
 EXTENDS SIPMsg, Texts, TLC, Json
 
-CONSTANTS Atoms, MaxLen, Cfgs, Junk, EmitOn
-VARIABLES wire, vis, cont, obj, verdict, cfg, prev, hist
+CONSTANTS Atoms, MaxLen, MaxAtoms, Cfgs, Junk, EmitOn
+VARIABLES wire, vis, cont, obj, verdict, cfg, prev, hist, na
 
 K_New(c)  == CASE c.kind \in {"hdrline", "hdrlineb"} -> HdrLineK_New(c)
                [] c.kind \in {"headers", "headersb"} -> HeadersK_New(c)
@@ -36,4 +36,20 @@ CfgsMsgAll == {C("msg", 0, f, h, -1) : f \in 0..7, h \in {-1, 1}}
 Emit == (EmitOn /\ vis > 0) =>
           PrintT(ToJson([k |-> cfg.kind, cfg |-> cfg, wire |-> wire, cuts |-> hist,
                          offs |-> cont, err |-> verdict, obs |-> K_Obs(obj)]))
+\* C03 with the property's exemptions: no-more-data mode (end of input), and the body extent of a message without
+\* Content-Length parsed with neither skip-body nor CLen-required (its body is by definition the rest of the buffer)
+MaskBody(o) == [o EXCEPT !.Body = <<0, 0>>, !.RawMsg = <<0, 0>>]
+StableM ==
+  (prev < Len(wire) /\ prev > cfg.start) =>
+     LET p == Fresh(prev)  q == Fresh(Len(wire)) IN
+       (Definitive(p.err) /\ p.err # "PANIC") =>
+          IF cfg.kind = "msg" /\ MFlag(cfg.flags, NoMoreDataF) THEN TRUE
+          ELSE IF cfg.kind = "msg" /\ cfg.flags % 4 = 0 /\ p.err = "ok" /\ p.st.pv.clen.state # "clFIN"
+            THEN q.err = p.err /\ MaskBody(K_Obs(q.st)) = MaskBody(K_Obs(p.st))
+          ELSE q.err = p.err /\ q.offs = p.offs /\ K_Obs(q.st) = K_Obs(p.st)
+
+SRec(cuts) == LET r == SchedRes(cuts) IN
+  ToJson([k |-> cfg.kind, cfg |-> cfg, wire |-> wire, cuts |-> cuts, offs |-> r.offs, err |-> r.err, obs |-> K_Obs(r.st)])
+EmitTwo  == (EmitOn /\ HasTwo) => PrintT(SRec(TwoCuts))
+EmitByte == (EmitOn /\ HasByte) => PrintT(SRec(ByteCuts))
 =============================================================================
